@@ -1,7 +1,183 @@
 import Aqv.Base.Proto
-open Aqv Aqv.Proto
+import Aqv.Base.Keccak
+import Aqv.Model.TxSign
+open Aqv Aqv.Proto Aqv.TxSign
 
-/-- stub driver for C12 (answers every case line with "bad-op"); replaced when the property is built. -/
-def handle (l : String) : String := let _ := l; "bad-op\tagree"
+/-!
+  Model driver for C12.  Case lines (see go/harness/cmd/c12); numbers are minimal hex, byte strings hex ("-" = empty),
+  tx9 = nonce price gas to value data v r s, signer = F | H | E:<chainId>:
+    snd <signer> <tx9> <recO>                       -> ok <addr> | err <class>
+    sign <signer> <tx9 unsigned> <key> <addr> <signO> <recO>  -> ok <v> <r> <s> | err <class>
+    hash <tx9> / sighash <signer> <tx9>             -> <hash>
+    rlp <hex>                                       -> ok <tx9> | err
+    json <tx9>                                      -> 9 JSON string fields (S<hex> | N)
+    unjson <9 fields>                               -> ok <tx9> | err
+    cache <signer;signer;...> <tx9> <recO>          -> answers joined by |
+    prot <v>                                        -> <0|1> <chainId>
+    mk <homesteadBlock|-> <eip155Block|-> <chainId> <number|->   -> F | H | E:<chainId>
+  secp256k1 is instantiated with the values supplied by the harness (recO: hash:r:s:rid=addr|err, signO: hash=r:s:rid);
+  Keccak-256 and RLP are computed here.
+-/
+
+def hexNat (s : String) : Option Nat :=
+  s.toList.foldlM (fun acc c => (hexVal c).map (fun d => acc * 16 + d)) 0
+
+def natHex (n : Nat) : String :=
+  if n = 0 then "0" else String.ofList ((hexDigitsF n n).map hexDigit)
+
+def hexB (s : String) : Bytes := (bytesOfHex s).getD []
+def splitC (s : String) (c : Char) : List String := s.splitOn (String.singleton c)
+
+def parseSigner (s : String) : Option Signer :=
+  match splitC s ':' with
+  | ["F"] => some .frontier
+  | ["H"] => some .homestead
+  | ["E", c] => (hexNat c).map .eip155
+  | _ => none
+
+def renderSigner : Signer → String
+  | .frontier => "F"
+  | .homestead => "H"
+  | .eip155 c => "E:" ++ natHex c
+
+def parseTx (fs : List String) : Option Tx :=
+  match fs with
+  | [n, p, g, to, v, d, vv, r, s] =>
+    match hexNat n, hexNat p, hexNat g, hexNat v, hexNat vv, hexNat r, hexNat s with
+    | some n, some p, some g, some v, some vv, some r, some s =>
+      some ⟨n, p, g, (if to == "-" then none else some (hexB to)), v, hexB d, vv, r, s⟩
+    | _, _, _, _, _, _, _ => none
+  | _ => none
+
+def renderTx (t : Tx) : String :=
+  " ".intercalate [natHex t.nonce, natHex t.price, natHex t.gas, hexOrDash (t.to.getD []), natHex t.value, hexOrDash t.data,
+    natHex t.v, natHex t.r, natHex t.s]
+
+structure RecEntry where
+  hash : Bytes
+  r : Nat
+  s : Nat
+  rid : Nat
+  res : Option Bytes
+
+def parseRec (s : String) : List RecEntry :=
+  if s == "-" then [] else
+  (splitC s ',').filterMap fun e =>
+    match splitC e '=' with
+    | [k, v] =>
+      match splitC k ':' with
+      | [h, r, ss, rid] =>
+        match hexNat r, hexNat ss, rid.toNat? with
+        | some r, some ss, some rid => some ⟨hexB h, r, ss, rid, if v == "err" then none else some (hexB v)⟩
+        | _, _, _ => none
+      | _ => none
+    | _ => none
+
+def missMarker : Bytes := [0x4d, 0x49, 0x53, 0x53]   -- "MISS": a value the harness did not supply
+
+def mkEcdsa (recs : List RecEntry) (signO : Option (Bytes × Nat × Nat × Nat)) (addr : Bytes) : Ecdsa :=
+  { sign := fun _ h => match signO with
+      | some (h', r, s, rid) => if h == h' then (r, s, rid) else (0, 0, 0)
+      | none => (0, 0, 0),
+    recover := fun h r s rid =>
+      match recs.find? (fun e => e.hash == h && e.r == r && e.s == s && e.rid == rid) with
+      | some e => e.res
+      | none => some missMarker,
+    addr := fun _ => addr }
+
+def errName : Err → String
+  | .invalidSig => "invalidSig" | .invalidChainId => "invalidChainId" | .recover => "recover" | .mismatch => "mismatch"
+
+def renderSender (sep : String) : Except Err Bytes → String
+  | .ok a => "ok" ++ sep ++ hexOfBytes a
+  | .error e => "err" ++ sep ++ errName e
+
+def kec : Bytes → Bytes := Keccak.keccak256
+
+def jsonField : Option Bytes → String
+  | some b => "S" ++ hexOrDash b
+  | none => "N"
+
+def parseJsonField (s : String) : Option (Option Bytes) :=
+  match s.toList with
+  | 'S' :: r => some (some (hexB (String.ofList r)))
+  | ['N'] => some none
+  | _ => none
+
+def handle (l : String) : String :=
+  let (inp, go) := splitCase l
+  match fields inp with
+  | "snd" :: sg :: rest =>
+    (match parseSigner sg, parseTx (rest.take 9), rest.drop 9 with
+     | some sg, some t, [recO] =>
+       let E := mkEcdsa (parseRec recO) none []
+       let m := renderSender " " (senderOf E kec sg t)
+       -- both sides rejecting (for whatever reason) is within the property; anything else must match exactly
+       verdict m go (go.startsWith "err" && m.startsWith "err") "sender-differs-from-model"
+     | _, _, _ => "bad-op\tspec-ok")
+  | "sign" :: sg :: rest =>
+    (match parseSigner sg, parseTx (rest.take 9), rest.drop 9 with
+     | some sg, some t, [_key, addr, signO, recO] =>
+       let so := match splitC signO '=' with
+         | [h, v] => (match splitC v ':' with
+           | [r, s, rid] => (match hexNat r, hexNat s, rid.toNat? with
+             | some r, some s, some rid => some (hexB h, r, s, rid)
+             | _, _, _ => none)
+           | _ => none)
+         | _ => none
+       let E := mkEcdsa (parseRec recO) so (hexB addr)
+       let m := match signTx E kec sg t 0 with
+         | .ok t' => s!"ok {natHex t'.v} {natHex t'.r} {natHex t'.s}"
+         | .error e => "err " ++ errName e
+       verdict m go false "SignTx-differs-from-model"
+     | _, _, _ => "bad-op\tspec-ok")
+  | "hash" :: rest =>
+    (match parseTx rest with
+     | some t => verdict (hexOfBytes (txHash kec t)) go false "tx-hash-differs-from-model"
+     | none => "bad-op\tspec-ok")
+  | "sighash" :: sg :: rest =>
+    (match parseSigner sg, parseTx rest with
+     | some sg, some t => verdict (hexOfBytes (sigHash kec sg t)) go false "signing-hash-differs-from-model"
+     | _, _ => "bad-op\tspec-ok")
+  | ["rlp", hex] =>
+    let m := match decodeTx (hexB hex) with
+      | some t => "ok " ++ renderTx t
+      | none => "err"
+    verdict m go false "tx-rlp-decoding-differs-from-model"
+  | "json" :: rest =>
+    (match parseTx rest with
+     | some t =>
+       let j := jsonOfTx t
+       let m := " ".intercalate [jsonField (some j.nonce), jsonField (some j.gasPrice), jsonField (some j.gas), jsonField j.to,
+         jsonField (some j.value), jsonField (some j.input), jsonField (some j.v), jsonField (some j.r), jsonField (some j.s)]
+       verdict m go false "tx-json-differs-from-model"
+     | none => "bad-op\tspec-ok")
+  | "unjson" :: rest =>
+    (match rest.map parseJsonField with
+     | [some (some n), some (some p), some (some g), some to, some (some v), some (some d), some (some vv), some (some r), some (some s)] =>
+       let m := match txOfJson ⟨n, p, g, to, v, d, vv, r, s⟩ with
+         | some t => "ok " ++ renderTx t
+         | none => "err"
+       verdict m go false "tx-json-decoding-differs-from-model"
+     | _ =>
+       -- a required field that is null / not a string: UnmarshalJSON must fail
+       verdict "err" go false "tx-json-decoding-differs-from-model")
+  | "cache" :: sgs :: rest =>
+    (match (splitC sgs ';').mapM parseSigner, parseTx (rest.take 9), rest.drop 9 with
+     | some qs, some t, [recO] =>
+       let E := mkEcdsa (parseRec recO) none []
+       let m := "|".intercalate ((senderSeq E kec t none qs).map (renderSender "_"))
+       verdict m go false "cached-sender-differs-from-model"
+     | _, _, _ => "bad-op\tspec-ok")
+  | ["prot", v] =>
+    (match hexNat v with
+     | some v => verdict ((if isProtectedV v then "1 " else "0 ") ++ natHex (deriveChainId v)) go false "protected/chain-id-differs-from-model"
+     | none => "bad-op\tspec-ok")
+  | ["mk", hb, eb, c, num] =>
+    let opt (s : String) : Option Nat := if s == "-" then none else hexNat s
+    (match hexNat c with
+     | some c => verdict (renderSigner (makeSigner (opt hb) (opt eb) c (opt num))) go false "MakeSigner-differs-from-model"
+     | none => "bad-op\tspec-ok")
+  | _ => "bad-op\tspec-ok"
 
 def main : IO Unit := runLines handle
